@@ -49,17 +49,26 @@ def specStep (db : Db) (r r' : Run) (st : State) : Op → Option (State × List 
   | .initLoad a ks => some (prewarmAll st (Access.addr a :: ks.map (Access.slot a)), [])
   | op => some (AccessSets.accessAll st (accessesOf db r.js op))
 
+/-- transaction-level pre-warming happens before the first checkpoint, on an account that is absent, or present
+but neither cold nor created in this transaction and whose named slots are absent or warm (`load_access_list`
+runs first, on an empty journaled state) -/
+def initLoadOk (r : Run) (a : Addr) (ks : List Nat) : Bool :=
+  r.cps.isEmpty &&
+    (match r.js.state a with
+     | some acc => !acc.cold && !acc.created &&
+         ks.all (fun k => match acc.storage k with | some sl => !sl.cold | none => true)
+     | none => true)
+
 /-- the discipline of the frame machine (`open_`: indices of the open checkpoints, outermost first): a frame
 commits or reverts its own checkpoint; a revert may name an outer open checkpoint and closes everything
 inside it; transaction-level pre-warming happens before the first checkpoint, on an account that is neither
-cold nor created in this transaction -/
+cold nor created in this transaction and whose named slots are not cold -/
 def wnStep (open_ : List Nat) (r r' : Run) : Op → Option (List Nat)
   | .checkpoint => some (open_ ++ [r.cps.length])
   | .create _ _ _ _ _ => some (if r.cps.length < r'.cps.length then open_ ++ [r.cps.length] else open_)
   | .commit => if open_ = [] then none else some open_.dropLast
   | .revert i => if i ∈ open_ then some (open_.filter (· < i)) else none
-  | .initLoad a _ =>
-    if r.cps.isEmpty && (match r.js.state a with | some acc => !acc.cold && !acc.created | none => true) then some open_ else none
+  | .initLoad a ks => if initLoadOk r a ks then some open_ else none
   | _ => some open_
 
 /-- the admissibility conditions of C06 that do not concern the checkpoint discipline -/
